@@ -164,6 +164,7 @@ impl Report {
                     && k["kind"].as_str().map(|x| x == f.kind).unwrap_or(true)
                     && k["class"].as_str().map(|x| f.class.starts_with(x)).unwrap_or(true)
                     && k["detail_contains"].as_str().map(|x| f.detail.contains(x)).unwrap_or(true)
+                    && k["detail_requires_all"].as_array().map(|a| a.iter().all(|x| x.as_str().map(|x| f.detail.contains(x)).unwrap_or(true))).unwrap_or(true)
                     && k["detail_excludes"].as_array().map(|a| a.iter().all(|x| x.as_str().map(|x| !f.detail.contains(x)).unwrap_or(true))).unwrap_or(true)
             });
             match m {
